@@ -292,6 +292,10 @@ def gen_response(tape, method='GET', allow_truncate=False, allow_surplus=True, a
 # ---------------------------------------------------------------------------------------------
 # hostile-peer generators (C09): grammar-aware mutations of valid traffic and raw random bytes
 LONG = 70000          # longer than asyncio.StreamReader's 64 KiB line limit
+ODD_CONTENT_TYPES = (b'text/html; charset=\xff', b'text/html; charset=nonexistent-codec', b';;;', b'text/html; charset="', b'text/html; charset=utf-16',
+                     b'text/html; charset=undefined', b'text/html; charset=hex', b'text/html; charset=base64', b'text/css; charset=zlib', b'text/html; charset=rot13',
+                     b'application/javascript; charset=bz2', b'text/html; charset=utf-7', b'text/html; charset=idna', b'text/html; charset=punycode',
+                     b'text/html; charset=unicode_escape', b'text/html; charset=utf-32', b'text/html; charset=mbcs', b'text/html; charset=' + b'x' * 300)
 
 
 def mutate_message(tape, resp):
@@ -311,7 +315,8 @@ def mutate_message(tape, resp):
             head_lines.insert(i, head_lines[i])
             desc.append('duplicate-header')
         elif k == 2:
-            v = tape.choice((b'99999999999999999999999', b'-5', b'0x10', b'abc', b'', b'1e3', b'12 34', b'\xff\xfe'), 'mut.cl')
+            v = tape.choice((b'99999999999999999999999', b'-5', b'0x10', b'abc', b'', b'1e3', b'12 34', b'\xff\xfe', b'1\xb2', b'\xb9\xb2\xb3',
+                             b'9' * 5000, b'+5', b'5_0', b' 7 ', b'\xbc', b'0' * 4400 + b'5', b'1\x00'), 'mut.cl')
             head_lines = [ln for ln in head_lines if not ln.lower().startswith(b'content-length')]
             head_lines.insert(1, b'Content-Length: ' + v)
             desc.append('content-length:%r' % v)
@@ -373,8 +378,8 @@ def mutate_message(tape, resp):
                                                                 b'a=b; Domain=' + b'd' * 300), 'mut.cookie'))
             desc.append('odd-set-cookie')
         elif k == 18:
-            head_lines.insert(1, b'Content-Type: ' + tape.choice((b'text/html; charset=\xff', b'text/html; charset=nonexistent-codec', b';;;', b'text/html; charset="',
-                                                                  b'text/html; charset=utf-16', b'text/html; charset=undefined'), 'mut.ctype'))
+            head_lines = [ln for ln in head_lines if not ln.lower().startswith(b'content-type')]
+            head_lines.insert(1, b'Content-Type: ' + tape.choice(ODD_CONTENT_TYPES, 'mut.ctype'))
             desc.append('odd-content-type')
         elif k == 19:
             head_lines.insert(1, b'Refresh: ' + tape.choice((b'0; url=http://[bad', b'garbage', b'0;url=', b'999999999999999999999;url=/x', b'0; url=\xff\xfe'), 'mut.refresh'))
